@@ -353,7 +353,8 @@ def corpus_failures(prop):
     if prop not in _CORPUS:
         try:
             from pycv import monitor
-            _CORPUS[prop] = monitor.run_corpus({prop}, max_failures=5)
+            deps = set(props_config().get(prop, {}).get("depends_on", ()))
+            _CORPUS[prop] = monitor.run_corpus({prop} | deps, max_failures=5)
         except Exception as e:      # noqa: BLE001
             _CORPUS[prop] = []
     return _CORPUS[prop]
